@@ -10,6 +10,9 @@ TECH_FAULT = "exhaustive fault-point enumeration (E1 choice-tree DFS, deviation-
 TECH_SCHED = "stateless model checking of the implementation under a controlled scheduler: all interleavings up to a preemption bound (iterative context bounding) plus environment fault choices"
 
 CHECKS = {
+ "C01": dict(cat="exploration", engine="E3-enumeration", tech=TECH_ENUM,
+   text="programs of <=2 (thorough <=3) clause calls from a 55-call alphabet x 27 finishers x 2 models x both placeholder dialects ('?' and '$n'), with each of 31 hostile value classes at every argument position (<=1-2 deviating slots), are built in DryRun; a SQL lexer that skips quoted text checks: placeholder count/sequence equals the bound values, no argument marker appears in the SQL text, every placeholder is governed by the column carrying the marker of the value bound to it (alignment), every argument is rendered; every <=1-call program is additionally executed on SQLite and checked at the recording driver",
+   note="templates are well-formed; identifiers are not argument values; LIMIT/OFFSET binding checked only under the harness dialectors; internal deadline => exhaustive:false when the machine is loaded"),
  "C05": dict(cat="fault_enumeration", engine="E1-choice-tree", tech=TECH_FAULT,
    text="52 write operations (Create/CreateInBatches/Save/Update(s)/Delete over nested graphs: belongs-to, has-one, has-many, many-to-many, polymorphic; FullSaveAssociations; Select-ed association deletes) x dialectors (RETURNING, LastInsertId; thorough adds PrepareStmt): the fault-free run fixes the driver calls and hook invocations, then every single fault (quick) / every set of up to 3 faults (thorough) at every driver call and hook invocation is enumerated; oracle: full dump of 9 tables equals the pre-state whenever a fault fired, the injected error is returned, no open transaction or checked-out connection",
    note="SQLite dialect; faults on ROLLBACK are never injected; a failed COMMIT rolls back; 2 open known findings (Save fallback spans two implicit transactions)"),
@@ -19,9 +22,18 @@ CHECKS = {
  "C13": dict(cat="fault_enumeration", engine="E1-choice-tree", tech=TECH_FAULT,
    text="2661 programs (9 operations x 6 argument shapes of length 0-3 x child configurations by value/pointer x hooks/SkipHooks/UpdateColumn x own/caller transaction) are executed on SQLite with every hook invocation a choice point; every single hook failure (quick) and every pair (thorough) is enumerated; oracle: per-record hook multiset and order relative to the statement in the driver log, hooks run inside the operation's transaction (driver-level BEGIN window), failing hook => error returned, no later phase, all tables incl. the hooks' own marker writes equal the pre-state, SetColumn values are the values stored",
    note="SQLite dialect; hook logging through a Logger wrapper; assumptions listed in evidence; Save of a non-zero non-existing key, CreateInBatches and SkipDefaultTransaction are outside the alphabet"),
+ "C16": dict(cat="model_checking", engine="E3-enumeration", tech=TECH_BFS,
+   text="explicit-state BFS over sequences (<=3 quick, <=4 thorough) of Save / Create+OnConflict{DoNothing,UpdateAll,DoUpdates(all column subsets)} / FirstOrInit / FirstOrCreate (struct+map conditions, Attrs/Assign in struct, map, key-value form) / soft-delete on key space {1,2,3}, plain and soft-delete model, state = table dump (timestamps masked), every transition executed on gorm over SQLite with a reference map stepped in lock-step; 880 chain shapes with Session(&Session{})/WithContext inserted at every position are compared with the unwrapped chain; FirstOrInit must send no write, FirstOrCreate at most one",
+   note="SQLite dialect; successor = re-seed state + one operation, each expanded state also reached by replaying its real history; attrs overlapping condition columns and empty DoUpdates outside the alphabet"),
+ "C17": dict(cat="model_checking", engine="E3-enumeration", tech=TECH_BFS,
+   text="explicit-state search over all registration sequences (Register/Before/After/Before+After/Replace/Remove over built-ins, new names, unknown name, '*') up to length 3 (+ length 4 over a reduced name set in thorough) for each of the 6 pipelines from the pristine and the all-replaced initial state; every transition runs on the real sorter in a worker sub-process (a fatal stack overflow becomes a violation with the journalled sequence); observation: compiled fns by function identity and the firing log of a DryRun operation; oracle: error returned, or every live callback fires once on the requested side of the callback it names, built-ins keep their order, Replace keeps position",
+   note="4 open known findings (sortCallbacks); cyclic inputs are executed only until 40/400 worker deaths per pipeline => exhaustive:false while that finding is open; duplicate registration without Replace outside the alphabet"),
  "C18": dict(cat="exploration", engine="E3-enumeration", tech=TECH_ENUM,
    text="100 operations (writes with nested associations, preload/join reads, FindInBatches, CreateInBatches, Save fallback, association mode, Select-ed deletes) x handle bindings (WithContext, Session{Context}, …) x transaction wrappers (depth 0-2, Begin/Commit, savepoints, Connection) x PrepareStmt off/config/session x live/cancelled context: every driver call recorded (begin, prepare, exec, query, prepared exec/query) must carry the caller's context marker; with a cancelled context no prepare/exec/query reaches the driver",
    note="SQLite dialect; contexts are identified by a value marker; database/sql itself refuses cancelled contexts once gorm hands them over"),
+ "C19": dict(cat="exploration", engine="E3-enumeration", tech=TECH_ENUM,
+   text="every program of the C01 grammar (<=1-2 calls quick, <=3 thorough; reads, writes, upserts, soft deletes, raw SQL) is run four ways from identical handles and data: Session{DryRun}, Config.DryRun, ToSQL, and for real behind the recording driver; DryRun runs must leave no prepare/exec/query in the driver log (ToSQL no driver call at all), all three expose the same SQL+values, and the real run's main statement text and converted arguments equal them",
+   note="counter clock reset before every run; Save and FirstOrCreate (several main statements) outside the alphabet"),
  "C14": dict(cat="model_checking", engine="E2-scheduler", tech=TECH_SCHED,
    text="the real prepare_stmt.go/gorm.go (instrumented at build time by overlay: sync -> scheduling shim, go/channel statements hooked) is explored under a cooperative scheduler: every interleaving of 2 threads (<=2-3 preemptions quick, <=4 thorough), 3 threads (<=2/3) and 4 threads (<=2, thorough) of Exec/Query/Transaction/Reset/Close/first-use-Session programs, with Prepare failures and ErrBadConn as environment choices; oracle per schedule: no deadlock/panic, results equal the sequential run, <=1 cache-level prepare per text and generation, no leaked driver statement after the final Close",
    note="database/sql and the fake driver are atomic steps; statement.go's per-statement sync.Map is not a scheduling point; data races are not decided by this check (see C07)"),
